@@ -102,6 +102,7 @@ type Conn struct {
 	exports    []*expent
 	exportID   idgen
 	imports    map[importID]*impent
+	importGen  uint64 // generation of the most recently created importClient
 	embargoes  []*embargo
 	embargoID  idgen
 }
